@@ -4,8 +4,8 @@ import json
 
 from lib.vlib import gN, gnat, gbool, glist, gpair, gopt
 
-HDR = "From SioV Require Import Base.GoSem Sio.Ack Sio.AckCheck.\nImport ListNotations.\n"
-THEOREMS = ["C03_at_most_once", "C03_exactly_once_with_timeout", "C03_reply_matches_event",
+HDR = "From SioV Require Import Base.GoSem Sio.Ack Sio.AckQueue Sio.AckCheck.\nImport ListNotations.\n"
+THEOREMS = ["C03_at_most_once", "C03_no_invocation_while_reply_callback_runs", "C03_exactly_once_with_timeout", "C03_reply_matches_event",
             "C03_one_reply_per_event", "C03_purge_exact", "C03_no_mutex_left_held"]
 KIND = {"T": 0, "K": 1, "N": 2}
 
@@ -342,6 +342,72 @@ def queue_suite(ctx, vh):
     ctx.obligation("oracle:queue", "oracle", ok, "%d scenarios (failures in the listed known-finding class retry-queue-forced-drain are reported as KNOWN-FINDING, any other fails this obligation)" % len(rows))
 
 
+def queuewin_suite(ctx, vh):
+    """Retry queue (Retries = 1): a second Emit runs, synchronously, at a chosen log line of the reply / timeout /
+    retry / discard path of the first packet (public ManagerConfig.Debugger); model Sio/AckQueue.v."""
+    rows = ctx.vh_jsonl(vh, "acks", ["-mode", "queuewin", "-seed", ctx.seed, "-tier", ctx.tier], timeout=600)
+    if rows is None:
+        return
+
+    def term(r):
+        s = r["spec"]
+        o0, o1 = g_outcomes(r["invs0"]), g_outcomes(r["invs1"])
+        if o0 is None or o1 is None:
+            o0 = o1 = "[OTimeout; OTimeout]"
+        pos = s["pos"] if (r["fired"] or not s["word"]) else 99
+        return "(mkQcase %s %s %s %s %s %s)" % (gnat(s["kind"]), gnat(pos), o0, o1, gnat(min(r["seen0"], 50)), gnat(min(r["seen1"], 50)))
+
+    def evaluate(rows, tag):
+        terms = [term(r) for r in rows]
+        if not ctx.coq_eval_cases("qwin_both" + tag, HDR, terms, "qboth"):
+            return [], []
+        return (ctx.coq_eval_cases("qwin_oracle" + tag, HDR, terms, "qoracle"),
+                ctx.coq_eval_cases("qwin_agree" + tag, HDR, terms, "qagree"))
+
+    good = [r for r in rows if not r.get("err")]
+    ctx.indeterminate += len(rows) - len(good)
+    rows = good
+    bad_o, bad_a = evaluate(rows, "")
+    suspects = sorted(set(bad_o) | set(bad_a))
+    if suspects:
+        # a reply slower than AckTimeout (250 ms) on a stalled machine adds a retry: re-run the suspects alone
+        again = ctx.vh_jsonl(vh, "acks", ["-mode", "queuewin", "-only", json.dumps([rows[i]["spec"] for i in suspects]),
+                                          "-workers", 1, "-patience", 3000], timeout=600)
+        if again is not None and len(again) == len(suspects) and not any(r.get("err") for r in again):
+            o2, a2 = evaluate(again, "_retry")
+            for j, i in enumerate(suspects):
+                rows[i] = again[j]
+            bad_o, bad_a = [suspects[j] for j in o2], [suspects[j] for j in a2]
+            ctx.note("queuewin: %d suspects re-run alone, %d reproduce" % (len(suspects), len(set(bad_o) | set(bad_a))))
+    unfired = [r["spec"] for r in rows if r["spec"]["word"] and not r["fired"]]
+    if unfired:
+        ctx.note("queuewin: %d windows were never reached (log lines changed?): %s" % (len(unfired), unfired[:3]))
+    for r in rows:
+        s = r["spec"]
+        ctx.count(1, nontrivial_key=("qwin", s["kind"], s["word"], s["occ"]) if r["fired"] else None,
+                  dist="queuewin:%s" % ["answered", "retried", "discarded"][s["kind"]])
+    ctx.obligation("correspondence:queuewin", "correspondence", not bad_a and len(unfired) <= 2,
+                   "%d interleavings, %d disagree, %d windows not reached" % (len(rows), len(bad_a), len(unfired)))
+    ctx.obligation("oracle:queuewin", "oracle", not bad_o, "%d interleavings, %d fail" % (len(rows), len(bad_o)))
+    fmt = lambda invs: ["timeout" if i["to"] else "reply(%d)" % i["code"] for i in invs]
+    for i in bad_o[:3]:
+        r = rows[i]
+        ctx.violation("client with Retries=1, AckTimeout=250ms: Emit(\"q\",1,cb1), and a second Emit(\"q\",2,cb2) running when the "
+                      "client logs %r (occurrence %d; server policy %s): cb1 got %s, cb2 got %s, server received the packets %d / %d "
+                      "times (expected: each callback exactly once with its own outcome)"
+                      % (r["spec"]["word"] or "<afterwards>", r["spec"]["occ"],
+                         ["answers at once", "ignores the first attempt", "never answers packet 1"][r["spec"]["kind"]],
+                         fmt(r["invs0"]), fmt(r["invs1"]), r["seen0"], r["seen1"]),
+                      {"kind": "failing-input", "engine": "acks", "mode": "queuewin", "case": r,
+                       "replay_cmd": "vh acks -mode queuewin -only '%s'" % json.dumps([r["spec"]])})
+    if (bad_a and not bad_o) or len(unfired) > 2:
+        r = rows[bad_a[0]] if bad_a else {"spec": unfired[0]}
+        ctx.violation("client retry queue no longer behaves as the model Sio/AckQueue.v (or its log lines moved): %s" % json.dumps(r)[:600],
+                      {"kind": "correspondence-broken", "suite": "queuewin",
+                       "theorems": ["C03_queue_at_most_once_partial", "C03_queue_head_pending_until_shifted"], "case": r},
+                      no_input=True)
+
+
 def run(ctx):
     ctx.rule = ("purge: every layout of <=2 packets and a seeded sample (quick) / all (thorough) of the 3-packet layouts over "
                 "{T,K,N} x 0..3 attachments, non-trivial = a timed-out packet with >=1 attachment; live: one case per emitted "
@@ -356,12 +422,13 @@ def run(ctx):
     vh = ctx.go_build()
     if vh is None:
         return
-    with cf.ThreadPoolExecutor(max_workers=6) as ex:
+    with cf.ThreadPoolExecutor(max_workers=7) as ex:
         futs = [ex.submit(purge_suite, ctx, vh),
                 ex.submit(live_suite, ctx, vh, "race", "race", race_cases),
                 ex.submit(live_suite, ctx, vh, "forced", "forced", race_cases),
                 ex.submit(live_suite, ctx, vh, "raw", "raw", raw_cases),
                 ex.submit(peer_suite, ctx, vh),
-                ex.submit(queue_suite, ctx, vh)]
+                ex.submit(queue_suite, ctx, vh),
+                ex.submit(queuewin_suite, ctx, vh)]
         for f in futs:
             f.result()
